@@ -117,7 +117,7 @@ example :
 theorem C15_transcription_pinned :
     Generated.skel_events_FileWriter = 9076450457970906327 ∧
     Generated.skel_events_HandleEvent = 10248215779350580241 ∧
-    Generated.skel_events_UpsertLastModTime = 11220885732069580640 ∧
+    Generated.skel_events_UpsertLastModTime = 2428717206913043922 ∧
     Generated.skel_walk_WalkFiles = 17625773593303583570 := by decide
 -- END transcription pins
 
